@@ -172,7 +172,7 @@ def main(tier):
                        'read f32/f64 immediates with exactly one byte reversal and leave integer immediates alone; the swap_* helpers reverse exactly their width; '
                        'the mutex-based RMW path additionally under the controlled scheduler (2 threads, same cell, all interleavings, linearizability on the big-endian image); the WASI host (wasi.c) built for both configurations runs one scenario (args, environ, prestat, open/write/seek/read through iovecs, fdstat, filestat, readlink, clocks, fd_readdir complete and with every buffer length that cuts the second record) and every field it stored into guest memory is read back through the typed loads of the same build: values must agree')
     chk.sample({'case': 'i64.store32 offset=1 at base 0xfffd, then i32.load16_s at 0xffff', 'mode': 'forced big endian'})
-    chk.assumptions += ['real big-endian hardware is not available: the endianness detection #if chain and the non-builtin swap macros are not exercised']
+    chk.assumptions += ['real big-endian hardware is not available: the endianness detection #if chain is not exercised; the portable swap macros are exercised by the plain load/store flavours only']
     return chk.finish()
 
 
